@@ -2,6 +2,7 @@
 fn sqrt_rem(&self) -> ($half, $t)
 /*@[u64] #[hoist(Self = u64, Name = sqrt_rem_u64)] @*/
 /*@[u128] #[hoist(Self = u128, Name = sqrt_rem_u128)] @*/
+/*@[u32] #[hoist(Self = u32, Name = sqrt_rem_u32)] @*/
 /*@
     ensures // C12: (s, r) with s the square root truncated toward zero and r == value - s^2:  s*s + r == n, r <= 2s  (<==> s*s <= n < (s+1)*(s+1))
         (ret.0 as int) * (ret.0 as int) + ret.1 as int == *self as int, ret.1 as int <= 2 * (ret.0 as int),
@@ -17,6 +18,9 @@ fn sqrt_rem(&self) -> ($half, $t)
     /*@[u64] let ghost z = br_lz64(*self) as nat; let ghost w = 64nat;
         proof { lemma_br_lz64(*self); lemma_br_pow2_64(); lemma_br_sqrt_norm(x, z, (br_lz64(*self) & !1u32) as nat, w);
                 lemma_br_shl64(*self, br_lz64(*self) & !1u32); } @*/
+    /*@[u32] let ghost z = br_lz32(*self) as nat; let ghost w = 32nat;
+        proof { lemma_br_lz32(*self); vstd::arithmetic::power2::lemma2_to64(); lemma_br_sqrt_norm(x, z, (br_lz32(*self) & !1u32) as nat, w);
+                lemma_br_shl32(*self, br_lz32(*self) & !1u32); } @*/
     /*@[u128] let ghost z = br_lz128(*self) as nat; let ghost w = 128nat;
         proof { lemma_br_lz128(*self); lemma_br_pow2_64(); lemma_br_sqrt_norm(x, z, (br_lz128(*self) & !1u32) as nat, w);
                 lemma_br_shl128(*self, br_lz128(*self) & !1u32); } @*/
@@ -26,6 +30,7 @@ fn sqrt_rem(&self) -> ($half, $t)
     if shift != 0 {
         /*@[u64] proof { lemma_br_shr32(root, shift / 2); } @*/
         /*@[u128] proof { lemma_br_shr64(root, shift / 2); } @*/
+        /*@[u32] proof { lemma_br_shr16(root, shift / 2); } @*/
         root >>= shift / 2;
         /*@ proof {
             lemma_br_sqrt_rem_iff(x * pow2(shift as nat), rs, rem as int);
